@@ -111,6 +111,59 @@ def embed(R, P):
     return res
 
 
+def slide_gaps(P, matched):
+    """diff-style normalisation: slide each unmatched run left/right (over equal tokens) to a position where the
+    annotation text lints clean (balanced, no executable remainder)"""
+    n = len(P)
+    flag = [i in matched for i in range(n)]
+    i = 0
+    while i < n:
+        if flag[i] or P[i] == "pub":
+            i += 1
+            continue
+        a = i
+        b = i
+        while b < n and not flag[b]:
+            b += 1
+        def clean(x, y):
+            txt = " ".join(P[x:y])
+            return extract.lint_annotation(txt) is None
+        if not clean(a, b):
+            best = None
+            # slide right by s
+            s_ = 1
+            while b + s_ <= n and all(flag[b + k] for k in range(s_)) and P[a:a + s_] == P[b:b + s_]:
+                if clean(a + s_, b + s_):
+                    best = s_
+                    break
+                s_ += 1
+            if best is None:
+                s_ = 1
+                while a - s_ >= 0 and all(flag[a - k - 1] for k in range(s_)) and P[a - s_:a] == P[b - s_:b]:
+                    if clean(a - s_, b - s_):
+                        best = -s_
+                        break
+                    s_ += 1
+            if best is None and b < n:
+                # re-match the code token after the gap to an equal token inside the gap, splitting the run in two
+                for m in range(a, b):
+                    if P[m] == P[b] and clean(a, m) and clean(m + 1, b + 1):
+                        flag[m] = True
+                        flag[b] = False
+                        break
+            if best is not None:
+                for k in range(a, b):
+                    flag[k] = True
+                lo, hi = a + best, b + best
+                for k in range(min(a, lo), max(b, hi)):
+                    flag[k] = True
+                for k in range(lo, hi):
+                    flag[k] = False
+                b = max(b, hi)
+        i = b
+    return set(i for i in range(n) if flag[i])
+
+
 def annotate(ptext, ptoks, matched):
     """ptext: probe item text; ptoks: its tokens (no comments); matched: set of token indices that are code"""
     out = []
@@ -265,7 +318,7 @@ def main():
                     i = last + 1
                     continue
                 flush()
-                ann = annotate(ptext, ptoks, set(emb))
+                ann = annotate(ptext, ptoks, slide_gaps(P, set(emb)))
                 nth = 0
                 out.append("//@@ item %s | %s%s" % (path, key, (" | " + json.dumps(opts)) if opts else ""))
                 for a in lines[first:i]:
